@@ -8,7 +8,7 @@
 (* was registered, whether the call raised and whether the answer differs  *)
 (* from the value of the current content.                                  *)
 (***************************************************************************)
-EXTENDS CacheOps, TLC
+EXTENDS CacheOps, TLC, IOUtils
 
 CONSTANTS NT,        \* test chromosome slots
           NS,        \* suite slots
@@ -16,7 +16,12 @@ CONSTANTS NT,        \* test chromosome slots
           MaxFuncs,  \* bound on the length of a registered-function list
           MaxSuite,  \* bound on suite size for growing operators
           FFSeq,     \* all fitness functions as a list
-          CFSeq      \* all coverage functions as a list
+          CFSeq,     \* all coverage functions as a list
+          MaxDepth,  \* bound on the number of calls in a behaviour
+          Ops,       \* the calls explored (a slice of the alphabet)
+          Modes,     \* which initial populations: "T" one test, "S" test + suite, "A" = "S" with all calls
+          MaxTop,    \* bound on live test chromosomes for tclone
+          ExtraT     \* additional calls explored from the one-test population (mode "T")
 
 VARIABLES W, obs
 vars == <<W, obs>>
@@ -27,6 +32,15 @@ DefCFSeq == <<"g1">>
 DefFactoryFF == <<"f1", "f2">>
 NoFaults == {}
 CodeFaults == AllFaults
+\* Cache_asis.cfg: the defect(s) named by the environment variable C12_FAULTS ("all" or one name)
+EnvFaults == IF IOEnv.C12_FAULTS = "all" THEN AllFaults ELSE {f \in AllFaults : f = IOEnv.C12_FAULTS}
+AllOps == {"tq", "sq", "taddf", "taddc", "saddf", "saddc", "tinv", "sinv", "tclone", "sclone",
+           "tmut", "txo", "sadd", "sdel", "sset", "sxo", "smut"}
+TestOps == {"tq", "taddf", "taddc", "tinv", "tclone", "tmut", "txo"}
+SuiteOps == {"sq", "tq", "saddf", "saddc", "sinv", "sclone", "sadd", "sdel", "sset", "sxo", "smut"}
+ModeOps(m) == IF m = "T" THEN TestOps ELSE IF m = "S" THEN SuiteOps ELSE AllOps
+ModesTS == {"T", "S"}
+ModesA == {"A"}
 
 TIds == 1..NT
 SIds == 1..NS
@@ -46,9 +60,9 @@ Acts(W0) ==
            {A("tq", a, 0, 0, 0, kf[2], kf[1]) : a \in lt, kf \in QArgs}
       \cup {A("sq", s, 0, 0, 0, kf[2], kf[1]) : s \in ls, kf \in QArgs}
       \cup {A("taddf", a, 0, 0, 0, f, "") : a \in {x \in lt : Len(W0.t[x].ff) < MaxFuncs}, f \in FF}
-      \cup {A("taddc", a, 0, 0, 0, f, "") : a \in {x \in lt : Len(W0.t[x].cf) < MaxFuncs}, f \in CF}
+      \cup {A("taddc", a, 0, 0, 0, f, "") : a \in {x \in lt : Len(W0.t[x].cf) < Cardinality(CF)}, f \in CF}
       \cup {A("saddf", s, 0, 0, 0, f, "") : s \in {x \in ls : Len(W0.s[x].ff) < MaxFuncs}, f \in FF}
-      \cup {A("saddc", s, 0, 0, 0, f, "") : s \in {x \in ls : Len(W0.s[x].cf) < MaxFuncs}, f \in CF}
+      \cup {A("saddc", s, 0, 0, 0, f, "") : s \in {x \in ls : Len(W0.s[x].cf) < Cardinality(CF)}, f \in CF}
       \cup {A("tinv", a, 0, 0, 0, "", "") : a \in lt}
       \cup {A("sinv", s, 0, 0, 0, "", "") : s \in ls}
       \cup {A("tclone", a, ft, 0, 0, "", "") : a \in lt}
@@ -60,7 +74,9 @@ Acts(W0) ==
       \cup {A("sset", s, a, p, 0, "", "") : s \in ls, a \in tt, p \in 1..MaxSuite}
       \cup {A("sxo", s, s2, p, q, "", "") : s \in ls, s2 \in ls, p \in 0..MaxSuite, q \in 0..MaxSuite}
       \cup {A("smut", s, 0, 0, 0, "", "") : s \in ls}
-  IN {act \in cand : Enabled(W0, act)}
+  IN {act \in cand : /\ act.op \in Ops /\ act.op \in ModeOps(W0.mode) /\ Enabled(W0, act)
+                     /\ (act.op = "tclone" => Cardinality(lt) < MaxTop)
+                     /\ ((act.op = "tq" /\ W0.mode = "S") => W0.t[act.a].owner # 0)}
 
 (* the outcomes the operator code admits; fresh content versions come from the clock *)
 OutRec(id, c, h, u, d) == [id |-> id, c |-> c, chg |-> h, sut |-> u, did |-> d]
@@ -96,24 +112,28 @@ UsedVersions(out) == {out.ts[i].c : i \in DOMAIN out.ts} \cup {out.added[j].c : 
 
 Do(act, out) ==
   /\ OutOK(W, act, out)
-  /\ W' = [Step(W, act, out) EXCEPT !.clk = MaxOf({W.clk} \cup UsedVersions(out))]
-  /\ obs' = VerdictOf(W, act)
+  /\ LET r == StepV(W, act, out)
+     IN /\ W' = [r.W EXCEPT !.clk = MaxOf({W.clk} \cup UsedVersions(out))]
+        /\ obs' = r.v
 
-Next == \E act \in Acts(W) : \E out \in Outs(W, act) : Do(act, out)
+DepthOf(W0) == IF W0.mode = "T" THEN MaxDepth + ExtraT ELSE MaxDepth
+Next == /\ TLCGet("level") <= DepthOf(W)
+        /\ \E act \in Acts(W) : \E out \in Outs(W, act) : Do(act, out)
 
 (* Initial population: a test held by the caller (with or without a call on the SUT), a suite
    with one member from the chromosome factory; functions of either kind registered or not. *)
-InitWorld(sut1, regF, regC) ==
+InitWorld(mode, sut1, regF, regC) ==
   [t |-> [i \in TIds |->
             IF i = 1 THEN NewT(1, sut1, IF regF THEN FFSeq ELSE <<>>, IF regC THEN CFSeq ELSE <<>>, 0)
-            ELSE IF i = 2 THEN NewT(2, TRUE, FactoryFF, <<>>, 1)
+            ELSE IF i = 2 /\ mode # "T" THEN NewT(2, TRUE, FactoryFF, <<>>, 1)
             ELSE DeadT],
    s |-> [j \in SIds |->
-            IF j = 1 THEN NewS(<<2>>, IF regF THEN FFSeq ELSE <<>>, IF regC THEN CFSeq ELSE <<>>)
+            IF j = 1 /\ mode # "T"
+            THEN NewS(<<2>>, IF regF THEN FFSeq ELSE <<>>, IF regC THEN CFSeq ELSE <<>>)
             ELSE DeadS],
-   clk |-> 2]
+   clk |-> 2, mode |-> mode]
 
-Init == /\ \E sut1, regF, regC \in BOOLEAN : W = InitWorld(sut1, regF, regC)
+Init == /\ \E mode \in Modes : \E sut1, regF, regC \in BOOLEAN : W = InitWorld(mode, sut1, regF, regC)
         /\ obs = NoV
 
 Spec == Init /\ [][Next]_vars
